@@ -9,7 +9,8 @@ PROP = {'counts': {'quick': 100, 'thorough': 5000},
          'operation on the twin + reference map of the acknowledged writes + documented limits (key 1..4096, value '
          '<= 10 MB, batch <= 1000) rejected without effect + dead/unknown handles answer not-found; non-trivial = '
          'a transaction read or scan that sees its own buffered write, a filtered/ranged/limited scan that returns '
-         'rows and at least one rejected request; distinct by case text',
+         'rows and at least one rejected request; distinct by case text'
+         ' Added later: scan-option sweep case (every prefix/suffix, plain and by handle), concurrent BeginTransaction burst, unexpected waits bounded at 20 s.',
  'assumptions': ['programs are sequential: a call that has to wait for the transaction lock is issued only where '
                  'waiting has no later effect (Scan, GetStats, BeginTransaction while a read-write handle is open) '
                  'and is observed as "blocked" through a 300 ms client deadline',
